@@ -64,11 +64,26 @@ _COMMON = [
     "nbtasks:negative", "nbtasks:zero",
 ] + ["nbtasks:negative/%s/%s%s" % (g, e, r) for g in ("G1", "G2") for e in ("", "fold_") for r in ("aff", "jac")]
 
+# the error clause as a product: entry point x size class x error kind (Fold has no scalar vector: task count only;
+# a scalar vector cannot be shorter than an empty point vector)
+_ERR = ["err:%s/n=%s/%s%s.MultiExp" % (k, n, g, r)
+        for k in ("nbtasks", "len_short", "len_long", "len_short+nbtasks", "len_long+nbtasks")
+        for n in ("0", "1", "2", "small", "large") for g in ("G1", "G2") for r in ("Affine", "Jac")
+        if not (k.startswith("len_short") and n == "0")]
+_ERR += ["err:nbtasks/n=%s/%s%s.Fold" % (n, g, r) for n in ("0", "1", "2", "small", "large")
+         for g in ("G1", "G2") for r in ("Affine", "Jac")]
+# constructed cancellations (total / upper-vs-lower window / weighted bucket sum / embedded variants / one leaf of a halved call)
+_CANCEL = ["result:O_by_cancellation"]
+for _k in ("total", "windows", "buckets", "emb_windows", "emb_buckets", "emb_leaf"):
+    _CANCEL += ["points:cancel:" + _k, "cancel:%s/recv:aff" % _k, "cancel:%s/recv:jac" % _k, "cancel:%s/n>=769" % _k]
+_COMMON += _ERR + _CANCEL
+
 PROP = dict(
     rule=("one evaluation = one MultiExp/Fold call (receiver G1Affine/G1Jac/G2Affine/G2Jac) on a generated (points, scalars, NbTasks, "
           "GOMAXPROCS) compared with the reference value; non-trivial when n >= 2 and at least one of: a repeated, opposite or "
           "infinite point, a zero or r-1 scalar, NbTasks < NumCPU (semaphore path), the batch-affine processor selected "
-          "(c >= 10 and enough buckets filled), an overweight chunk (split in two); error cases (length mismatch, NbTasks > 1024) "
+          "(c >= 10 and enough buckets filled), an overweight chunk (split in two), a constructed cancellation (total, window, "
+          "bucket or leaf sum exactly O); error cases (length mismatch, NbTasks > 1024) "
           "count as non-trivial; distinct = distinct (group, inputs hash, config) keys"),
     assumptions=[
         "reference = ref.Curve affine chord-and-tangent law over math/big (no gnark-crypto code); every input point has a discrete "
@@ -94,6 +109,8 @@ PROP = dict(
     mandatory=dict(quick=_CS_QUICK + _COMMON, thorough=["c:%d" % c for c in range(4, 17)] + _COMMON),
     jobs=[
         dict(name="basic", pkg="c04", run="^TestC04_(Small|Fold|Errors)$", shards=GROUPS, checks=(120, 1500), weight=2,
+             timeout=(3600, 14400)),
+        dict(name="errors", pkg="c04", run="^TestC04_ErrorsProduct$", shards=GROUPS, checks=(3, 25), weight=1,
              timeout=(3600, 14400)),
         dict(name="window", pkg="c04", run="^TestC04_Window$", shards=_window_fast, checks=(160, 1500), weight=5,
              timeout=(3600, 14400)),
